@@ -461,15 +461,16 @@ func resizeOutputsAny(lay string, body *xcbor.Node, n int) {
 }
 
 type genInfo struct {
-	Tpl      string
-	NTx      int
-	MaxOuts  int
-	Synth    int
-	NInvalid int
+	InvalidShape string
+	Tpl          string
+	NTx          int
+	MaxOuts      int
+	Synth        int
+	NInvalid     int
 }
 
 func (g genInfo) String() string {
-	return fmt.Sprintf("%s ntx=%d maxouts=%d synth=%d invalid=%d", g.Tpl, g.NTx, g.MaxOuts, g.Synth, g.NInvalid)
+	return fmt.Sprintf("%s ntx=%d maxouts=%d synth=%d invalid=%d%s", g.Tpl, g.NTx, g.MaxOuts, g.Synth, g.NInvalid, g.InvalidShape)
 }
 
 // genBlock draws a block of the template's era. The result is a built tree
@@ -518,6 +519,23 @@ func genBlock(rt *rapid.T, t *template, big bool) (*xcbor.Node, genInfo) {
 			if rapid.IntRange(0, 3).Draw(rt, "isInvalid") == 0 {
 				invalid = append(invalid, uint64(i))
 			}
+		}
+	}
+	// special shapes of the invalid-index list: unsorted, duplicate, out of range
+	// (the decoder decides; a rejected block is simply not judged)
+	if len(invalid) > 0 {
+		switch rapid.IntRange(0, 7).Draw(rt, "invalidShape") {
+		case 0:
+			for i, j := 0, len(invalid)-1; i < j; i, j = i+1, j-1 {
+				invalid[i], invalid[j] = invalid[j], invalid[i]
+			}
+			info.InvalidShape = "unsorted"
+		case 1:
+			invalid = append(invalid, invalid[0])
+			info.InvalidShape = "duplicate"
+		case 2:
+			invalid = append(invalid, uint64(n))
+			info.InvalidShape = "out-of-range"
 		}
 	}
 	info.NTx = n
@@ -595,9 +613,14 @@ func bigBlock(t *template, nTx, nOuts, nColl, firstK int) *xcbor.Node {
 	txs := make([]poolTx, nTx)
 	for i := range txs {
 		p := t.Pool[i%len(t.Pool)]
-		tx := poolTx{Body: p.Body.Clone(), Wit: p.Wit.Clone()}
-		if p.Aux != nil {
-			tx.Aux = p.Aux.Clone()
+		tx := poolTx{Body: p.Body, Wit: p.Wit, Aux: p.Aux} // shared nodes: the tree is cloned before any edit
+		if i < firstK {
+			tx = poolTx{Body: p.Body.Clone(), Wit: p.Wit.Clone()}
+			if p.Aux != nil {
+				tx.Aux = p.Aux.Clone()
+			}
+		}
+		if tx.Aux != nil {
 		} else if lay != layByron && i%2 == 1 {
 			tx.Aux = xcbor.M(xcbor.U(674), xcbor.T("generated"))
 		}
@@ -687,6 +710,9 @@ func sizedTx(t *template, which string, size int) *poolTx {
 		return nil
 	}
 	lay := layoutOf(t.Type)
+	if lay == layDijkstra && size > dijkstraMaxTx/2 {
+		return nil // the Dijkstra decoder limits a transaction to 16 KiB
+	}
 	p := t.Pool[0]
 	tx := poolTx{Body: p.Body.Clone(), Wit: p.Wit.Clone()}
 	if p.Aux != nil {
@@ -781,4 +807,35 @@ func sizedBlock(t *template, which string, size int) *xcbor.Node {
 		return tx
 	}
 	return assemble(t, []poolTx{mk(0), *stx, mk(1)}, nil)
+}
+
+// hugeBlock: for eras without an exact-size knob, a transaction whose body (by
+// repeating its outputs) or witness set (by a long native-script list) exceeds
+// 64 KiB. Returns nil where sizedTx already covers 65536 or the era has a
+// transaction size limit.
+func hugeBlock(t *template, which string) *xcbor.Node {
+	if len(t.Pool) == 0 || layoutOf(t.Type) != layShelley || sizedTx(t, which, 65536) != nil {
+		return nil
+	}
+	p := t.Pool[0]
+	tx := poolTx{Body: p.Body.Clone(), Wit: p.Wit.Clone()}
+	switch which {
+	case "body":
+		outs := tx.Body.MapGet(1)
+		if outs == nil || len(outs.Items) == 0 {
+			return nil
+		}
+		per := len(outs.Items[0].Encode())
+		resizeOutputsAny(layShelley, tx.Body, 65536/per+2)
+	case "witness":
+		var items []*xcbor.Node
+		for i := 0; i < 2100; i++ {
+			k := make([]byte, 28)
+			k[0], k[1] = byte(i), byte(i>>8)
+			items = append(items, xcbor.A(xcbor.U(0), xcbor.B(k)))
+		}
+		tx.Wit.MapSet(1, xcbor.A(items...))
+	}
+	other := poolTx{Body: p.Body.Clone(), Wit: p.Wit.Clone()}
+	return assemble(t, []poolTx{other, tx, other}, nil)
 }
